@@ -460,3 +460,43 @@ func Clone(v any) any {
 
 	return nb
 }
+
+// ZeroValue is the harness' own table of zero values: nil for nullable kinds.
+func ZeroValue(attr jsonapi.Attr) any {
+	if attr.Nullable {
+		return nil
+	}
+
+	switch attr.Type {
+	case jsonapi.AttrTypeString:
+		return ""
+	case jsonapi.AttrTypeInt:
+		return int(0)
+	case jsonapi.AttrTypeInt8:
+		return int8(0)
+	case jsonapi.AttrTypeInt16:
+		return int16(0)
+	case jsonapi.AttrTypeInt32:
+		return int32(0)
+	case jsonapi.AttrTypeInt64:
+		return int64(0)
+	case jsonapi.AttrTypeUint:
+		return uint(0)
+	case jsonapi.AttrTypeUint8:
+		return uint8(0)
+	case jsonapi.AttrTypeUint16:
+		return uint16(0)
+	case jsonapi.AttrTypeUint32:
+		return uint32(0)
+	case jsonapi.AttrTypeUint64:
+		return uint64(0)
+	case jsonapi.AttrTypeBool:
+		return false
+	case jsonapi.AttrTypeTime:
+		return time.Time{}
+	case jsonapi.AttrTypeBytes:
+		return []byte{}
+	}
+
+	panic(fmt.Sprintf("gen: invalid kind %d", attr.Type))
+}
